@@ -37,7 +37,15 @@ build_inst() {
     go build -tags "verif verifinst" -overlay "$B/overlay-inst.json" -o "$B/mc-inst" ./cmd/mc || exit 2
   ) 9>"$B/.lock-inst"
 }
-if [ "$ID" = "build" ]; then build && build_inst; exit $?; fi
+# free-running race-detector pass for C11: plain overlay (real sync), -race
+build_racer() {
+  (
+    flock 9
+    cd "$V/mc" || exit 2
+    go build -race -tags verif -overlay "$B/overlay.json" -o "$B/racer" ./cmd/racer || exit 2
+  ) 9>"$B/.lock-racer"
+}
+if [ "$ID" = "build" ]; then build && build_inst && build_racer; exit $?; fi
 case "$ID" in
   C09|C10|C11)
     if ! build >"$B/build.log" 2>&1; then
@@ -47,6 +55,9 @@ case "$ID" in
       cat "$B/build-inst.log"
       echo "ENGINE-ERROR: instrumented build failed"
       exit 2
+    fi
+    if [ "$ID" = "C11" ] && ! build_racer >"$B/build-racer.log" 2>&1; then
+      cat "$B/build-racer.log"; echo "ENGINE-ERROR: race build failed"; exit 2
     fi
     cd "$V" && exec "$B/mc-inst" check "$ID" --tier "$TIER"
     ;;
